@@ -78,15 +78,15 @@ Definition model_privs : list stmt_priv := [
 
 (* the statement cases of AuthorizeQueryForRwUser (lib/util/lifted/influx/meta/authorizer.go) *)
 Definition model_rw_rules : list rwrule := [
-  mk_rwrule "ShowUsersStatement" "continue";
+  mk_rwrule "<default>" "";
   mk_rwrule "CreateUserStatement" "if stmtType.Admin == true { set stmtType.Admin = false }; continue";
+  mk_rwrule "DropDatabaseStatement" "if stmtType.Name == ""_internal"" { refuse }";
   mk_rwrule "DropUserStatement" "if stmtType.Name != ""rwuser"" { continue }";
-  mk_rwrule "SetPasswordUserStatement" "if u.Name != ""rwuser"" && stmtType.Name == ""rwuser"" { refuse }; continue";
   mk_rwrule "GrantStatement" "continue";
   mk_rwrule "RevokeStatement" "continue";
+  mk_rwrule "SetPasswordUserStatement" "if u.Name != ""rwuser"" && stmtType.Name == ""rwuser"" { refuse }; continue";
   mk_rwrule "ShowGrantsForUserStatement" "continue";
-  mk_rwrule "DropDatabaseStatement" "if stmtType.Name == ""_internal"" { refuse }";
-  mk_rwrule "<default>" "";
+  mk_rwrule "ShowUsersStatement" "continue";
   mk_rwrule "<tail>" "set privs, err := stmt.RequiredPrivileges(); if err != nil { return return err }; range privs { if !p.Rwuser { refuse } }"
 ].
 
